@@ -584,6 +584,10 @@ def _c12_jobs(tier):
     # two requests travel through its output helper (operation P1.set_flow_def makes it negotiate)
     for pool in (0, 2):
         jobs.append(("c12_request", ["--topo", 6, "--pool", pool, "--reqs", "1,3,4", "--depth", 5 if q else 6, "--deadline", dl]))
+    # providers decline and the ubuf_mgr request proposes a definition the memory-backed managers cannot serve ("pic.hw."): it has to
+    # travel past uprobe_ubuf_mem to the application probe placed after it
+    for topo in (0, 1):
+        jobs.append(("c12_request", ["--topo", topo, "--pool", 0, "--reqs", "0,3,4", "--tprov", 2, "--hwdef", 1, "--depth", 5 if q else 6, "--deadline", dl]))
     for tprov in (1, 2):
         jobs.append(("c12_request", ["--topo", 6, "--pool", 0, "--reqs", "1,3,4", "--tprov", tprov, "--depth", 5 if q else 6, "--deadline", dl]))
     jobs.append(("c12_request", ["--topo", 6, "--pool", 0, "--nreq", 3, "--depth", 5 if q else 6, "--deadline", dl]))
